@@ -184,6 +184,9 @@ var corpus = []corpusCase{
 	{"C01d", "C01d_nested_closure_seen_key", [][2]int{{22, 38}}, "ebe", false},
 	{"C01e", "C01e_fs_summary_edge_missing", [][2]int{{24, 42}}, "", true},
 	{"C01f", "C01f_global_field_store", [][2]int{{20, 16}, {21, 17}}, "", false},
+	// regression shapes (not findings: the unchanged tree reports them; a miss is an ordinary VIOLATION)
+	{"R2-global-accessor", "R2_global_accessor", [][2]int{{20, 22}}, "", false},
+	{"R2-dup-arg", "R2_dup_arg", [][2]int{{12, 13}}, "", false},
 }
 
 func runCorpus(rep *lib.Report) {
@@ -254,6 +257,10 @@ func runCorpus(rep *lib.Report) {
 		for _, p := range c.pairs {
 			rep.Case("corpus:" + c.id)
 			rep.Count("corpus")
+			if got[p] && strings.HasPrefix(c.id, "R2-") {
+				rep.Count("regression-shape-reported")
+				continue
+			}
 			if got[p] {
 				rep.Notes = append(rep.Notes, fmt.Sprintf("corpus %s: flow line %d -> line %d is reported (finding no longer reproduces)", c.id, p[0], p[1]))
 				continue
